@@ -52,10 +52,12 @@ class Closure:
 
 @dataclass
 class Frame:
-    kind: str                                       # let | with | rec | plain
+    kind: str                                       # let | with | rec | plain | opaque
     bindings: dict = field(default_factory=dict)    # name -> int | Ref | Inherit | InheritFrom | SetExpr
     env_name: str | None = None                     # with: environment given by a name
     notes: dict = field(default_factory=dict)       # name -> text of a block comment before the value
+    head: str = ""                                  # opaque: text of a head that binds none of NAMES
+                                                    # (`{ pkgs }:`, `pkgs:`, `assert true;`)
 
 
 @dataclass
@@ -73,6 +75,8 @@ class Call:
     outer: list                 # let frames around the call
     formals: dict               # name -> default value (int | Ref) or None
     arg: object                 # dict (literal set) | str (name bound in outer)
+    holder: object = None       # SetExpr: the call is the value of binding `y` of this set, whose
+                                # wrappers (and the set itself when rec) are scopes around the call
 
 
 @dataclass
@@ -81,6 +85,8 @@ class Program:
     text: str = ""
     n_bindings: int = 0
     call: Call | None = None
+    alias: tuple | None = None  # (name, i): the root set is bound to `name` in let wrapper i and
+                                # the document body is that name; the set sees wrappers[:i+1] only
 
 
 class Unbound(Exception):
@@ -106,6 +112,9 @@ class MissingArgument(Exception):
 def call_frames(call: Call) -> list[Frame]:
     """Frames a function body sees: the lets around the call, then the formals."""
     outer = list(call.outer)
+    if call.holder is not None:
+        h = call.holder
+        outer = list(h.wrappers) + [Frame("rec" if h.rec else "plain", h.bindings)] + outer
     if isinstance(call.arg, dict):
         supplied = call.arg
         arg_frames = outer
@@ -140,7 +149,10 @@ def frames_for(prog, path: list[str]) -> tuple[list[Frame], object]:
     else:
         cur = prog
     for i, key in enumerate(path):
-        frames.extend(cur.wrappers)
+        if i == 0 and isinstance(prog, Program) and prog.alias is not None:
+            frames.extend(cur.wrappers[: prog.alias[1] + 1])
+        else:
+            frames.extend(cur.wrappers)
         frames.append(Frame("rec" if cur.rec else "plain", cur.bindings))
         v = cur.bindings[key]
         if i == len(path) - 1:
@@ -352,6 +364,8 @@ def _render_setexpr(s: SetExpr, indent: int) -> str:
     for fr in s.wrappers:
         if fr.kind == "let":
             out += "let\n" + _render_bindings(fr.bindings, indent + 2, fr.notes) + f"\n{pad}in\n{pad}"
+        elif fr.kind == "opaque":
+            out += fr.head + f"\n{pad}"
         else:
             env = fr.env_name if fr.env_name is not None else _inline_set(fr.bindings)
             out += f"with {env};\n{pad}"
@@ -373,10 +387,38 @@ def _inline_set(b: dict) -> str:
     return "{ " + " ".join(parts) + " }"
 
 
+def _render_alias(prog: Program) -> str:
+    name, idx = prog.alias
+    s = prog.root
+    out = ""
+    for i, fr in enumerate(s.wrappers):
+        if fr.kind == "let":
+            out += "let\n" + _render_bindings(fr.bindings, 2, fr.notes)
+            if i == idx:
+                bare = SetExpr([], s.rec, s.bindings, s.inline, s.notes)
+                out += ("\n" if fr.bindings else "") + f"  {name} = {_render_setexpr(bare, 2)};"
+            out += "\nin\n"
+        else:
+            env = fr.env_name if fr.env_name is not None else _inline_set(fr.bindings)
+            out += f"with {env};\n"
+    return out + name + "\n"
+
+
 def render(prog: Program) -> str:
+    if prog.alias is not None:
+        return _render_alias(prog)
     if prog.call is None:
         return _render_setexpr(prog.root, 0) + "\n"
     c = prog.call
+    if c.holder is not None:
+        h = c.holder
+        inner = render(Program(prog.root, call=Call(c.outer, c.formals, c.arg))).rstrip("\n")
+        inner = inner.replace("\n", "\n    ")
+        body = _render_bindings(h.bindings, 2, h.notes)
+        shell = SetExpr(h.wrappers, h.rec, {}, False)
+        text = _render_setexpr(shell, 0)          # wrappers + `{\n\n}` (empty body)
+        head = text[: text.rindex("{") + 1]
+        return head + "\n" + (body + "\n" if body else "") + "  y =\n    " + inner + ";\n}\n"
     out = ""
     for fr in c.outer:
         out += "let\n" + _render_bindings(fr.bindings, 2) + "\nin\n"
@@ -406,6 +448,14 @@ def _gen_bindings(rng, names, outer_sets, depth, allow_nested, n_choices=(1, 2, 
     return b
 
 
+def _set_name(rng, local_sets, counter) -> str:
+    """Name of a let- or rec-bound set: fresh, or (shadowing) one that an outer scope binds too."""
+    if local_sets and rng.random() < 0.35:
+        return rng.choice(local_sets)
+    counter[0] += 1
+    return f"s{counter[0]}"
+
+
 def gen_setexpr(rng: random.Random, depth: int, set_names: list[str], counter: list[int]) -> SetExpr:
     wrappers: list[Frame] = []
     local_sets = list(set_names)
@@ -422,13 +472,20 @@ def gen_setexpr(rng: random.Random, depth: int, set_names: list[str], counter: l
                 wrappers.append(Frame("let", {k: (Ref(v.name) if isinstance(v, Ref) else v)
                                               for k, v in src.bindings.items()}))
                 continue
-            b = _gen_bindings(rng, NAMES, local_sets, depth, False)
+            sn = None
             if rng.random() < 0.4:
-                counter[0] += 1
-                sn = f"s{counter[0]}"
+                sn = _set_name(rng, local_sets, counter)
+            # the layer's own set is a possible `inherit (src)` source of its siblings: a let is
+            # recursive, the source is looked up in the layer itself before any outer scope
+            b = _gen_bindings(rng, NAMES, local_sets + ([sn, sn] if sn else []), depth, False)
+            if sn:
                 inner = {n: (uid() if rng.random() < 0.8 else Ref(rng.choice(NAMES)))
                          for n in rng.sample(NAMES, rng.choice([1, 2, 3]))}
                 b[sn] = SetExpr([], rng.random() < 0.2, inner)
+                if rng.random() < 0.5:
+                    items = list(b.items())
+                    rng.shuffle(items)
+                    b = dict(items)
                 local_sets.append(sn)
             wrappers.append(Frame("let", b))
         else:
@@ -446,6 +503,15 @@ def gen_setexpr(rng: random.Random, depth: int, set_names: list[str], counter: l
         bindings[f"r{counter[0]}"] = Ref(rng.choice(NAMES + (local_sets[:1] if rng.random() < 0.1 else [])))
     # names defined in the set itself (visible to siblings only when rec)
     bindings.update(_gen_bindings(rng, NAMES, local_sets, depth, False, n_choices=(0, 1, 2)))
+    # a sibling set used as `inherit (src)` source from inside the set itself: found in the set
+    # when it is `rec`, outside it (the outer binding of that name, if any) when it is not
+    if rng.random() < 0.15:
+        sn = _set_name(rng, local_sets, counter)
+        inner = {n: uid() for n in rng.sample(NAMES, rng.choice([1, 2, 3]))}
+        free = [n for n in inner if n not in bindings]
+        if free:
+            bindings[sn] = SetExpr([], False, inner)
+            bindings[rng.choice(free)] = InheritFrom(sn)
     # nested sets
     if depth < 3:
         for _ in range(rng.choice([0, 0, 1, 1, 2] if depth == 0 else [0, 0, 1])):
@@ -464,6 +530,31 @@ def gen_setexpr(rng: random.Random, depth: int, set_names: list[str], counter: l
     return out
 
 
+def _close_with_environments(prog: Program, rng) -> None:
+    """Alias documents: the set only sees the layers up to its own.  A `with NAME;` inside it
+    whose NAME is bound in a later layer only would be a static error in Nix (undefined
+    variable), not a scoping question: such an environment becomes a literal set."""
+    def visit(s: SetExpr, frames: list[Frame], top: bool):
+        ws = s.wrappers[: prog.alias[1] + 1] if top else s.wrappers
+        for fr in ws:
+            if fr.kind == "with" and fr.env_name is not None:
+                try:
+                    lookup_set(frames, fr.env_name, frozenset())
+                except (Unbound, Cycle, RecursionError):
+                    fr.env_name = None
+                    fr.bindings = {n: uid() for n in rng.sample(NAMES, rng.choice([1, 2]))}
+            frames = frames + [fr]
+        frames = frames + [Frame("rec" if s.rec else "plain", s.bindings)]
+        for fr in ws:
+            for v in fr.bindings.values():
+                if isinstance(v, SetExpr):
+                    visit(v, frames, False)
+        for v in s.bindings.values():
+            if isinstance(v, SetExpr):
+                visit(v, frames, False)
+    visit(prog.root, [], True)
+
+
 def count_bindings(s: SetExpr) -> int:
     n = 0
     for fr in s.wrappers:
@@ -474,7 +565,8 @@ def count_bindings(s: SetExpr) -> int:
     return n
 
 
-def generate(rng: random.Random, *, call: bool = False) -> Program:
+def generate(rng: random.Random, *, call: bool = False, alias: bool = False,
+             opaque: bool = False) -> Program:
     counter = [0]
     if call:
         outer: list[Frame] = []
@@ -500,12 +592,42 @@ def generate(rng: random.Random, *, call: bool = False) -> Program:
                 if n in formals and (formals[n] is None or rng.random() < 0.4) and rng.random() < 0.93:
                     arg[n] = uid() if rng.random() < 0.75 else Ref(rng.choice(NAMES))
         root = gen_setexpr(rng, 1, set_names, counter)
-        prog = Program(root, call=Call(outer, formals, arg))
+        holder = None
+        if rng.random() < 0.5:
+            # the call is not the document: it is the value of `y` in a set that has scopes of its
+            # own, which may bind the argument's name (shadowed by the call's own let) and the
+            # names the body uses
+            hw: list[Frame] = []
+            for _ in range(rng.choice([1, 1, 2])):
+                if rng.random() < 0.8:
+                    b = {n: (uid() if rng.random() < 0.8 else Ref(rng.choice(NAMES)))
+                         for n in rng.sample(NAMES, rng.choice([1, 2, 3]))}
+                    if isinstance(arg, str) and rng.random() < 0.7:
+                        b[arg] = SetExpr([], False, {n: uid() for n in formals})
+                    hw.append(Frame("let", b))
+                else:
+                    hw.append(Frame("with", {n: uid() for n in rng.sample(NAMES, rng.choice([1, 2]))}))
+            hb = {n: uid() for n in rng.sample(NAMES, rng.choice([0, 1, 2]))}
+            holder = SetExpr(hw, rng.random() < 0.4, hb)
+        prog = Program(root, call=Call(outer, formals, arg, holder))
         prog.text = render(prog)
-        prog.n_bindings = count_bindings(root) + sum(len(f.bindings) for f in outer) + len(formals) + 5
+        prog.n_bindings = count_bindings(root) + sum(len(f.bindings) for f in outer) + len(formals) + 5 \
+            + (count_bindings(holder) if holder is not None else 0)
         return prog
     root = gen_setexpr(rng, 0, [], counter)
+    if opaque and root.wrappers:
+        # a head that binds none of the names between the scopes and the set (function head,
+        # assert): the scopes before it still enclose the set
+        pos = rng.randrange(1, len(root.wrappers) + 1)
+        root.wrappers.insert(pos, Frame("opaque", {}, head=rng.choice(
+            ["{ pkgs }:", "pkgs:", "assert true;", "{ pkgs, lib, ... }:", "final: prev:"])))
     prog = Program(root)
+    if alias:
+        lets = [i for i, fr in enumerate(root.wrappers) if fr.kind == "let"]
+        if lets:
+            counter[0] += 1
+            prog.alias = (f"pkg{counter[0]}", rng.choice(lets))
+            _close_with_environments(prog, rng)
     prog.text = render(prog)
     prog.n_bindings = count_bindings(root)
     return prog
